@@ -793,7 +793,7 @@ pub fn run(ctx: &Ctx) -> (Stats, Spec) {
 
     language_connectives(&mut st);
     macro_forms(&mut st);
-    huge_table_connectives(&mut st, ctx.tier.pick(2_200_000usize, 17_000_000usize));
+    super::common::engine_block(&mut st, "C03", "huge-table", |s| huge_table_connectives(s, ctx.tier.pick(2_200_000usize, 17_000_000usize)));
     let spec = Spec {
         rule: "exhaustive: every ordered pair (triple for ite) of Boolean functions over 3 (2) variables in every argument position, under 5 label configurations (adjacent, interleaved-disjoint, extreme indices incl. usize::MAX, overlapping, disjoint-nested); random: operands over 4-6 sparse labels built by random routes with overlapping/nested/disjoint supports, BDDEnv<usize>, BDDEnv<NamedSymbol> (ids that coincide when narrowed to 8, 16 or 32 bits) and an environment over a symbol type whose Hash writes nothing (every same-shape pair of diagrams collides); every spelling of every connective through the formula language under 7 API orderings (none, dense, 1-based, sparse, descending vectors, unlisted names), the negation of every connective and every ordered pair of connectives, and 32 formulas through the compile-time `bdd!` macro (word and symbol spellings, keywords, comments); rounds with operands NOT built by the environment (plain unshared diagrams, dropped after use, thousands of rounds on one environment). distinct = (connective, operand tables, configuration); non-trivial = every operand non-constant. MANY VARIABLES: the same judgement on environments with 65-200 variables (more than a machine word of them), where operands are random DNFs and results are compared pointwise on 48 sampled assignments per case (biased towards the operands' cubes) and walked for order / reduction.".into(),
         assumptions: vec![
